@@ -243,7 +243,9 @@ fn run1<T: Flt>(src: &mut Src, obs: &mut Obs) -> Result<(), Fail> {
     obs.class(if exact_data { "data:exact" } else { "data:rounded" });
     let dd = if src.chance(1, 5) { DDim::Dyn } else { DDim::of_rank(1 + trailing.len()) };
     let strat = if linear { StratSel::Linear } else { StratSel::Spline(bc.clone()) };
-    let c = Case1 { n, axis_class: class, x: x.clone(), trailing: trailing.clone(), lanes, data: data.clone(), dd, strat };
+    let lay = crate::layout::pick_lay(src);
+    let xlay = crate::layout::pick_lay(src);
+    let c = Case1 { n, axis_class: class, x: x.clone(), trailing: trailing.clone(), lanes, data: data.clone(), dd, strat, lay, xlay };
     c.classes(obs);
     let min = if linear { 2 } else { 3 };
     obs.class(if n == min { "n16:minimum" } else { "n16:above-minimum" });
